@@ -228,10 +228,11 @@ func c17New() *c17World {
 	})
 	vtime.Reset(realtime.Unix(c17NowUnix, 0))
 	w := &c17World{s: qsched.New(), ls: NewLocalSuperior()}
-	w.connect()
 	if c17Topology == "T3" {
-		w.connectRelay()
+		w.connectRelay() // collector 0, so that the targeted proof task travels through the relay
+		w.connect()
 	} else {
+		w.connect()
 		w.connect()
 	}
 	w.quiesce()
